@@ -105,3 +105,36 @@ m('c20-on-done-drops-nested', 'C20', CO, "                if isinstance(result, 
 m('c20-unwrap-forgets-value', 'C20', FU, "                else:\n                    unwrapping.set_result(result)", "                else:\n                    pass", 'fire', 'unwrap')
 m('c20-rpc-drops-kwargs', 'C20', P, "                    result = callback(*args, **kwargs)", "                    result = callback(*args)", 'fire', 'run_callback')
 m('c20-silent-rename', 'C20', FU, "            res = await coro()\n            future.set_result(res)", "            outcome = await coro()\n            future.set_result(outcome)", 'silent')
+
+# ------------------------------------------------------------------ C02
+m('c02-no-close-on-terminated', 'C02', P, "            self._paused = None\n        self.close()", "            self._paused = None", 'fire', 'on_terminated')
+m('c02-killed-event-twice', 'C02', P, "        self._fire_event(ProcessListener.on_process_killed, self.killed_msg())", "        self._fire_event(ProcessListener.on_process_killed, self.killed_msg())\n        self._fire_event(ProcessListener.on_process_killed, self.killed_msg())", 'fire', 'on_killed')
+m('c02-finish-sets-result', 'C02', P, "        self.future().set_result(self.outputs)", "        self.future().set_result(result)", 'fire', 'on_finish')
+m('c02-result-swapped', 'C02', P, "            return self._state.result\n        if isinstance(self._state, process_states.Killed):", "            return self._state.successful\n        if isinstance(self._state, process_states.Killed):", 'fire', 'Process.result')
+m('c02-no-release-on-termination', 'C02', P, "        if self._paused is not None:\n            # Release a stepping task that is blocked on the pause: a terminated process has nothing left to step\n            if not self._paused.done():\n                self._paused.set_result(True)\n            self._paused = None\n", "", 'fire', 'Process.step', 'reverts the G4 fix')
+m('c02-entering-finished-branch-gone', 'C02', P, "        elif state_label == process_states.ProcessState.FINISHED:\n            call_with_super_check(self.on_finish, state.result, state.successful)  # type: ignore\n", "", 'fire', 'on_entering')
+m('c02-killed-hook-swapped', 'C02', P, "            call_with_super_check(self.on_excepted)\n        elif state_label == process_states.ProcessState.KILLED:\n            call_with_super_check(self.on_killed)", "            call_with_super_check(self.on_killed)\n        elif state_label == process_states.ProcessState.KILLED:\n            call_with_super_check(self.on_excepted)", 'fire', 'on_entered')
+m('c02-future-resolved-in-on_run', 'C02', P, '        """Entering the RUNNING state."""\n', '        """Entering the RUNNING state."""\n        if not self._future.done():\n            self._future.set_result(None)\n', 'fire', 'on_run')
+m('c02-on-terminated-only-if-not-failing', 'C02', SM, "            if self._state is not None and self._state.is_terminal():\n                call_with_super_check(self.on_terminated)", "            if self._state is not None and self._state.is_terminal() and not self._transition_failing:\n                call_with_super_check(self.on_terminated)", 'fire', 'transition_to')
+m('c02-silent-drop-per-cleanup-handler', 'C02', P, "                try:\n                    cleanup()\n                except Exception:\n                    self.logger.exception('Process<%s>: Exception calling cleanup method %s', self.pid, cleanup)", "                cleanup()", 'silent', None, 'failing cleanups are outside C02')
+m('c02-silent-close-guard-removed', 'C02', P, "        if self._closed:\n            return\n\n        call_with_super_check(self.on_close)", "        call_with_super_check(self.on_close)", 'silent', None, 'on_close consumes the list: still at most once')
+m('c02-both-once-defences-removed', 'C02', P, "            self._cleanups = None\n        finally:", "        finally:", 'silent', None, 'close() guard alone still suffices')
+m('c02-except-arg-wrong', 'C02', P, "        exception = exc_info[1]\n        exception.__traceback__", "        exception = RuntimeError('process excepted')\n        exception.__traceback__", 'fire', 'on_except')
+m('c02-excepted-reports-repr', 'C02', P, "ProcessListener.on_process_excepted, str(self.future().exception()))", "ProcessListener.on_process_excepted, self.killed_msg())", 'fire', 'on_excepted')
+
+# ------------------------------------------------------------------ C05
+m('c05-no-gate', 'C05', P, "        if self.paused and self._paused is not None:\n            await self._paused\n", "", 'fire', 'Process.step')
+m('c05-gate-after-execute', 'C05', P, "        if self.paused and self._paused is not None:\n            await self._paused\n\n        try:\n            self._stepping = True\n            next_state = None\n            try:\n                next_state = await self._run_task(self._state.execute)",
+  "        try:\n            self._stepping = True\n            next_state = None\n            try:\n                next_state = await self._run_task(self._state.execute)\n                if self.paused and self._paused is not None:\n                    await self._paused", 'fire', 'Process.step')
+m('c05-status-clobbered', 'C05', P, "        self._pre_paused_status = self.status\n        if msg is not None:\n            self.set_status(msg)", "        if msg is not None:\n            self.set_status(msg)\n        self._pre_paused_status = self.status", 'fire', 'on_paused')
+m('c05-do-pause-drops-step', 'C05', P, "            if next_state is not None:\n                self.transition_to(next_state)\n\n            if state_msg is None:", "            if state_msg is None:", 'fire', '_do_pause')
+m('c05-pause-while-stepping-immediate', 'C05', P, "        if self._stepping:\n            # Ask the step function to pause by setting this flag and giving the\n            # caller back a future\n            interrupt_exception = process_states.PauseInterruption(msg_text)",
+  "        if self._stepping and self._state.LABEL == process_states.ProcessState.WAITING:\n            interrupt_exception = process_states.PauseInterruption(msg_text)", 'fire', 'Process.pause')
+m('c05-play-keeps-paused', 'C05', P, "        if self._paused is not None:\n            self._paused.set_result(True)\n        self._paused = None\n\n        self.set_status", "        if self._paused is not None:\n            self._paused.set_result(True)\n\n        self.set_status", 'fire', 'on_playing')
+m('c05-play-no-cancel', 'C05', P, "                self._pausing.cancel()\n                self._pausing = None", "                self._pausing = None", 'fire', 'Process.play')
+m('c05-status-not-restored', 'C05', P, "        self.set_status(self._pre_paused_status)\n        self._pre_paused_status = None", "        self._pre_paused_status = None", 'fire', 'on_playing')
+m('c05-silent-hooks-before-transition', 'C05', P, "            if next_state is not None:\n                self.transition_to(next_state)\n\n            if state_msg is None:\n                msg_text = ''\n            else:\n                msg_text = state_msg[MESSAGE_TEXT_KEY]\n\n            call_with_super_check(self.on_pausing, msg_text)\n            call_with_super_check(self.on_paused, msg_text)",
+  "            if state_msg is None:\n                msg_text = ''\n            else:\n                msg_text = state_msg[MESSAGE_TEXT_KEY]\n\n            call_with_super_check(self.on_pausing, msg_text)\n            call_with_super_check(self.on_paused, msg_text)\n            if next_state is not None:\n                self.transition_to(next_state)", 'silent', None, 'order of hooks vs transition is immaterial')
+m('c05-double-pause-allowed', 'C05', P, "        if self.paused:\n            # Already paused\n            return True\n", "", 'fire', 'Process.pause')
+m('c05-partial-wrong-order', 'C05', P, "do_pause = functools.partial(self._do_pause, exception.msg)", "do_pause = functools.partial(self._do_pause, next_state=None, state_msg=exception.msg)", 'fire', '_create_interrupt_action')
+m('c05-no-rearm', 'C05', PS, "            self._waiting_future = futures.Future()\n            raise", "            raise", 'fire', 'Waiting.execute')
